@@ -439,12 +439,18 @@ class cleanup_functools_wrapper(object):
         else:
             raise NotImplementedError('This context manager is not reentrant')
         self.saved_attrs = {}
-        for attr in self.attrs:
-            try:
-                self.saved_attrs[attr] = getattr(self.func, attr)
-                delattr(self.func, attr)
-            except AttributeError:
-                pass
+        try:
+            for attr in self.attrs:
+                try:
+                    val = getattr(self.func, attr)
+                    delattr(self.func, attr)
+                except AttributeError:
+                    pass
+                else:
+                    self.saved_attrs[attr] = val
+        except BaseException:
+            self.__exit__()
+            raise
 
     def __exit__(self, *exc):
         for attr, val in self.saved_attrs.items():
